@@ -487,7 +487,7 @@ package regexp2
 //@   props C03
 //@   requires r != nil
 //@ func findFirstCharOptimized(r *Runner) (handled bool, found bool)
-//@   trusted dispatcher over the FindMode-specific finders; each finder is under contract, the dispatch itself is assumed to establish their fact preconditions from FactOptimized
+//@   trusted dispatcher and the FindMode-specific finders (findLeadingString..., findFixedDistance..., findLiteralAfterLoop..., findRequiredLandmarkChain...) are NOT verified: assumed never to skip a position with a successful attempt, given the published facts
 //@   requires r != nil && r.code != nil && 0 <= r.Runtextpos && r.Runtextpos <= len(r.Runtext) && r.Runtextend == len(r.Runtext)
 //@   requires FinderFacts(r.code, r.Runtext, r.Runtextstart)
 //@   modifies r.Runtextpos
